@@ -55,6 +55,7 @@ type feedRec struct {
 	printed    int
 	afterDone  int
 	doneClosed atomic.Bool
+	starved    bool        // a drain of this feed already timed out: later drains do not wait as long again
 	termClosed atomic.Bool // the harness closed the terminator
 	afterTerm  int         // callbacks that started after the terminator was closed
 }
@@ -809,6 +810,9 @@ func (w *World) drain(l Line) string {
 		return "r=harness-nofeed"
 	}
 	deadline := time.Now().Add(3 * time.Second)
+	if f.starved {
+		deadline = time.Now().Add(100 * time.Millisecond)
+	}
 	status := "ok"
 	if f.dump {
 		select {
@@ -830,6 +834,7 @@ func (w *World) drain(l Line) string {
 			}
 			if time.Now().After(deadline) {
 				status = "timeout"
+				f.starved = true
 				break
 			}
 			time.Sleep(100 * time.Microsecond)
